@@ -11,6 +11,7 @@ let () =
       | [] -> ()
       | "CASE" :: rest -> reset_all (); out ("CASE " ^ String.concat " " rest)
       | "E" :: t -> G_enc.cmd_enc t
+      | "T" :: t -> G_time.cmd_time t
       | c :: t -> if not (More.cmd_more c t) then out ("? unknown command " ^ c)
     end
   done with End_of_file -> ());
